@@ -17,7 +17,7 @@ def load(reg):
     reg.contract("Counter.__init__", params={"name": "obj"},
                  raises=[("TypeError", "not isstr(name)")],
                  ensures=["CI(self)", "self.g_cnt == 0", "self.g_sum == 0", "self._count == 0", "self._n == 0"],
-                 modifies=["self._name", "self._count", "self._n", "self.g_sum", "self.g_cnt"],
+                 modifies=["self.*"],
                  ghost_exit=[("self.g_sum", "0"), ("self.g_cnt", "0")],
                  on_raise="any", props=C09)
     reg.contract("Counter.initialize", params={},
@@ -71,14 +71,14 @@ def load(reg):
     reg.contract("Tally.__init__", params={"name": "obj"},
                  raises=[("TypeError", "not isstr(name)")],
                  ensures=["TI(self)", "self._n == 0"],
-                 modifies=["self._name"] + tally_mod, ghost_exit=ghost_reset, on_raise="any", props=C09)
+                 modifies=["self.*"], ghost_exit=ghost_reset, on_raise="any", props=C09)
     reg.contract("Tally.initialize", params={},
                  ensures=["TI(self)", "self._n == 0"],
                  modifies=tally_mod, ghost_exit=ghost_reset, props=C09)
     # observations are finite numbers (the property's domain): +-inf is excluded by the
     # precondition; non-numbers and NaN must be rejected with everything unchanged
     reg.contract("Tally.register", params={"value": "obj"},
-                 requires=["TI(self)", "not isnum(value) or isnan(num(value)) or isfin(value)"],
+                 requires=["TI(self)", "not isref(value)", "not isnum(value) or isnan(num(value)) or isfin(value)"],
                  raises=[("TypeError", "not isnum(value)"),
                          ("ValueError", "isnum(value) and isnan(num(value))")],
                  ensures=["TI(self)", "self._n == old(self._n) + 1"],
